@@ -44,7 +44,8 @@ def main():
                 if fd["path"] in fns:
                     fns[fd["path"]] = None          # several items of one path: never paired
                     continue
-                fns[fd["path"]] = {"sig": rename.fn_signature(fd), "params": rename.fn_params(fd), "body": rename.fn_body_summary(fd)}
+                fns[fd["path"]] = {"sig": rename.fn_signature(fd), "params": rename.fn_params(fd), "body": rename.fn_body_summary(fd),
+                                   "file": fd.get("file")}
             out["fns"][key] = {p: v for p, v in fns.items() if v}
             out["adts"][key] = {p: {"kind": a.get("kind"), "variants": [{"name": v["name"], "fields": [{"name": x["name"], "ty": x["ty"]} for x in v["fields"]]}
                                                                          for v in a["variants"]]} for p, a in d["adts"].items()}
